@@ -612,7 +612,7 @@ impl Prop for C14 {
 pub struct C11Case {
     pub width: u8,
     pub extra_threads: u8,
-    /// 0 user pool, 1 default pool, 2 inside a batch, 3 async dispatcher
+    /// 0 user pool, 1 default pool, 2 inside a batch, 3 async dispatcher, 4 default pool with a narrow batch registered before the wide stage
     pub mode: u8,
     /// number of groups that get a second, chained member (positions >= 1 do not rendezvous)
     pub tail: u8,
@@ -678,6 +678,51 @@ fn c11_plan(case: &C11Case) -> Plan {
             extra_deps: vec![],
         });
     }
+    if case.mode == 4 {
+        // a narrow batch registered FIRST (its dispatcher is built first and touches the shared
+        // pool slot first), then the wide stage beside it
+        let mut all = vec![Op::Batch {
+            name: "narrow".into(),
+            deps: vec![],
+            decl: 0,
+            ctl: Ctl::Custom { n: 1 },
+            rt: 1,
+            inner: vec![Op::Sys {
+                name: "only".into(),
+                deps: vec![],
+                reads: vec![],
+                writes: vec![],
+                rt: 3,
+                kind: Kind::Dyn,
+                extra_deps: vec![],
+            }],
+            extra_deps: vec![],
+        }];
+        for op in ops {
+            // dependency indices shift by one
+            all.push(match op {
+                Op::Sys {
+                    name,
+                    deps,
+                    reads,
+                    writes,
+                    rt,
+                    kind,
+                    extra_deps,
+                } => Op::Sys {
+                    name,
+                    deps: deps.into_iter().map(|d| d + 1).collect(),
+                    reads,
+                    writes,
+                    rt,
+                    kind,
+                    extra_deps,
+                },
+                o => o,
+            });
+        }
+        return all;
+    }
     if case.mode == 2 {
         vec![Op::Batch {
             name: "batch".into(),
@@ -704,7 +749,7 @@ impl Prop for C11 {
         "C11"
     }
     fn rule(&self) -> &'static str {
-        "stage width 2..16 x pool size = width + 0..3 (capped at 16) x {user pool via with_pool, default pool, stage inside a batch dispatched twice, async dispatcher} x 3 repeated dispatches; oracle: the first system of every group of the widest stage blocks inside run until all of them have arrived; the dispatch must complete with every rendezvous met; a missed rendezvous is retried with 2 s, 5 s, 15 s time-outs and only three misses in a row are a violation; non-trivial = every case (width >= 2); distinct = case hash"
+        "stage width 2..16 x pool size = width + 0..3 (capped at 16) x {user pool via with_pool, default pool, stage inside a batch dispatched twice, async dispatcher, default pool shared with a narrow batch registered first} x 3 repeated dispatches; oracle: the first system of every group of the widest stage blocks inside run until all of them have arrived; the dispatch must complete with every rendezvous met; a missed rendezvous is retried with 2 s, 5 s, 15 s time-outs and only three misses in a row are a violation; non-trivial = every case (width >= 2); distinct = case hash"
     }
     fn stream_len(&self) -> usize {
         24
@@ -713,7 +758,7 @@ impl Prop for C11 {
         C11Case {
             width: 2 + src.pick(15) as u8,
             extra_threads: src.pick(4) as u8,
-            mode: src.pick(4) as u8,
+            mode: src.pick(5) as u8,
             tail: src.pick(6) as u8,
             join: src.chance(8, 16),
             hints: src.pick(3) as u8,
@@ -798,7 +843,9 @@ fn c11_attempt(
     // members: the systems that form the first stage of the builder holding the wide stage
     let wide_bid = if case.mode == 2 { 1 } else { 0 };
     let w = case.width.clamp(2, 16) as usize;
-    let members: Vec<usize> = flat.builders[wide_bid].members[..w].to_vec();
+    // mode 4: builder 0 starts with the narrow batch, the wide systems follow it
+    let skip = if case.mode == 4 { 1 } else { 0 };
+    let members: Vec<usize> = flat.builders[wide_bid].members[skip..skip + w].to_vec();
     let rdv = Arc::new(Rendezvous {
         members,
         arrived: AtomicUsize::new(0),
@@ -806,7 +853,7 @@ fn c11_attempt(
         missed: AtomicBool::new(false),
         met: AtomicUsize::new(0),
     });
-    let user_pool = if case.mode == 1 {
+    let user_pool = if case.mode == 1 || case.mode == 4 {
         None
     } else {
         Some(pool(lane, threads))
